@@ -74,6 +74,57 @@ pub fn run(rep: &mut Rep) {
             }
         }
     }
+    // wide: N operations of mixed kinds outstanding at once, acknowledged in PRNG order, every result checked
+    let widths: Vec<usize> = if rep.quick() { vec![17, 33, 65, 129, 257] } else { vec![15, 16, 17, 31, 32, 33, 63, 64, 65, 127, 128, 129, 255, 256, 257, 511, 513, 1023, 1025, 3000] };
+    rep.note(&format!("wide: {:?} operations of mixed kinds outstanding together (from two handle clones), acknowledged in PRNG order with alternating success / failure reasons", widths));
+    for (wi, &n) in widths.iter().enumerate() {
+        for rep_k in 0..2u64 {
+            let id = format!("wide:{n}:{rep_k}");
+            idx += 1;
+            if !rep.take(idx, &id) {
+                continue;
+            }
+            let mut rng = crate::sim::Rng::new(rep.seed.wrapping_mul(77).wrapping_add(wi as u64 * 2 + rep_k));
+            let mut w = World::boot(WorldCfg { seed: rep.seed, seed_ids: if rep_k == 1 { Some((65535 - (n as u16 / 2), 16380)) } else { None }, ..Default::default() });
+            w.sim.log_enabled = n < 300;
+            let kinds = [Kind::Pub1, Kind::Pub2, Kind::Sub, Kind::Unsub, Kind::Ping, Kind::Pub1];
+            for j in 0..n {
+                w.start(j % 2, kinds[rng.below(kinds.len())]);
+                if j % 16 == 15 {
+                    w.settle_check();
+                }
+            }
+            w.settle_check();
+            let mut guard = 0;
+            loop {
+                let mut ackable = w.ackable();
+                let pings = w.pings_outstanding().len();
+                if ackable.is_empty() && pings == 0 {
+                    break;
+                }
+                if pings > 0 && (ackable.is_empty() || rng.chance(1, 6)) {
+                    w.pingresp();
+                } else {
+                    let (i, st) = ackable.swap_remove(rng.below(ackable.len()));
+                    w.deliver_ack(i, st, rng.below(9), (rng.next() % 2) as u8);
+                }
+                w.settle_check();
+                guard += 1;
+                if w.blind || guard > 10 * n + 100 {
+                    break;
+                }
+            }
+            super::script::finish(&mut w);
+            rep.add("evaluations", 1);
+            rep.add("wide_cases", 1);
+            rep.max("max_operations_outstanding_together", n as i64);
+            rep.distinct(&("wide", n, rep_k));
+            if super::harvest(rep, &mut w, &id) == 0 {
+                rep.sample(|| format!("{id}: {n} operations outstanding together, all completed with their own acknowledgement"));
+            }
+            super::add_counters(rep, &w);
+        }
+    }
     // real threads: every result is checked against the acknowledgement generated for that very request
     let mt: Vec<(usize, usize)> = if rep.quick() { vec![(4, 6000), (8, 4000), (2, 6000), (6, 4000)] } else { vec![(4, 40_000), (8, 40_000), (8, 30_000), (6, 50_000), (2, 60_000), (3, 50_000), (5, 40_000), (7, 30_000)] };
     rep.note("multi-thread: 2-8 OS threads with handle clones issuing batches of 1-12 concurrent operations; the broker thread answers with random delay and reordering, every acknowledgement carries the request's own topic as reason string and a reason code derived from it; each client verifies it got exactly that");
